@@ -757,8 +757,9 @@ func (c *MJSocialElementComponent) Render(w io.StringWriter) error {
 
 	// Use element's own padding first, then fall back to inherited inner-padding
 	iconPadding := padding
-	if padding == c.GetDefaultAttribute("padding") {
-		// Only use inner-padding if element doesn't have explicit padding
+	if c.GetWrittenAttribute("padding") == "" {
+		// Only use inner-padding if no padding is written for the element (a written value that
+		// happens to equal the default is still the element's value)
 		if inheritedInnerPadding := c.getAttribute("inner-padding"); inheritedInnerPadding != "" {
 			iconPadding = inheritedInnerPadding
 		}
